@@ -12,6 +12,14 @@ Three harnesses, all on the real implementation (trackpy from $TRACKPY_REPO):
      on/off, iso/anisotropic diameter, separation, percentile, minmass, maxsize,
      topn, noise/smoothing sizes, max_iterations, engines.  One > 1 Mpx canvas per
      preprocess setting in the quick tier.
+ (TP) touching pairs: two symmetric integer blobs on whole-pixel centres whose
+     centre-to-centre vector v lies EXACTLY on the separation ellipsoid
+     (sum((v_k/separation_k)^2) == 1 as rationals: axis-aligned v = separation_k e_k,
+     oblique Pythagorean v such as (6,8)/10, (3,8)/(5,10), (2,4,4)/6, (2,3,6)/7), so that
+     where_close's "closer than separation" decision sits on its boundary and may not
+     be taken by the rounding of pos/separation: the content is swept over ~10 whole-
+     pixel offsets of one canvas (every placement against the first, full table), and
+     an integer preprocess=False placement is located in EVERY axis order (3-D: all six).
  (X) transposition: integer image, preprocess=False, every axis order (2-D: .T as
      view and as copy; 3-D: all six permutations) with the per-axis parameters
      permuted alike; tables compared as multisets of rows (row order legitimately
@@ -424,6 +432,13 @@ def eval_translation_raw(chk, c):
     delta = {a: c['off2'][k] - c['off1'][k] for k, a in enumerate(AX[nd])}
     same_canvas = tuple(c['shape1']) == tuple(c['shape2'])
     res = dict(n=0 if isinstance(A, str) else len(A), A=A, B=B, bad=None, what=None)
+    res.update(compare_placements(A, B, delta, same_canvas))
+    return res
+
+
+def compare_placements(A, B, delta, same_canvas):
+    """the table relation of (T): {} or dict(what, sig[, bad])"""
+    res = {}
     if isinstance(A, str) or isinstance(B, str):
         if not (isinstance(A, str) and isinstance(B, str) and A == B):
             res['what'] = 'one placement raises, the other does not (%s / %s)' % (A if isinstance(A, str) else 'table', B if isinstance(B, str) else 'table')
@@ -501,6 +516,217 @@ def big_cases(rng):
     return out
 
 
+# ----------------------------------------------------------- touching pairs
+# (TP) two features whose refined centres are EXACTLY `separation` apart: where_close's decision
+# "closer than separation" sits on its boundary.  The rescaled coordinates pos/separation carry
+# rounding errors that depend on the absolute coordinates (and, in 3-D, the sum of squares depends on
+# the axis order), so a boundary decision taken without slack changes with the placement / axis order.
+_BV = {}
+
+
+def boundary_vectors(sep):
+    """integer vectors v with sum((v_k/sep_k)^2) == 1 exactly (rational arithmetic)"""
+    sep = tuple(sep)
+    if sep not in _BV:
+        fs = [Fraction(s) for s in sep]
+        _BV[sep] = [v for v in itertools.product(*[range(-int(s), int(s) + 1) for s in sep])
+                    if sum(Fraction(a) ** 2 / f ** 2 for a, f in zip(v, fs)) == 1]
+    return _BV[sep]
+
+
+def sym_blob(nd, amp, sigma, ext):
+    """point-symmetric (in fact axis-symmetric) integer blob of (2 ext + 1)^nd pixels: its brightness
+    centroid is its centre pixel exactly"""
+    ax = np.arange(-ext, ext + 1)
+    g = np.meshgrid(*([ax] * nd), indexing='ij')
+    r2 = sum(x.astype(float) ** 2 for x in g)
+    return np.floor(amp * np.exp(-r2 / (2.0 * sigma * sigma)))
+
+
+TP_SEPS = [3, 5, 6, 7, 9, 10, 11, 12, 13, 14, 15]
+
+
+def gen_touching(rng, nd, integer_raw=False, want_full=False):
+    """content with a touching pair (+ 0-2 distractor blobs far from it) and locate parameters"""
+    while True:
+        p = {}
+        if rng.random() < 0.5:
+            p['diameter'] = rng.choice([5, 7, 9, 11, 13] if nd == 2 else [5, 7])
+            if rng.random() < 0.5:
+                p['separation'] = rng.choice(TP_SEPS if nd == 2 else [3, 5, 6, 7, 9])
+        else:
+            p['diameter'] = tuple(rng.choice([5, 7, 9, 11] if nd == 2 else [5, 7]) for _ in range(nd))
+            if rng.random() < 0.5:
+                p['separation'] = tuple(rng.choice([3, 5, 6, 7, 9, 10, 12]) for _ in range(nd))
+        p['preprocess'] = False if integer_raw else rng.random() < 0.4
+        if rng.random() < 0.4:
+            p['percentile'] = rng.choice([0, 30, 50])
+        if rng.random() < 0.2:
+            p['max_iterations'] = rng.choice([1, 3])
+        if rng.random() < 0.15:
+            p['characterize'] = False
+        d, rad, sep, sm, ns, margin = axis_values(p, nd)
+        bv = boundary_vectors(sep)
+        oblique = [v for v in bv if sum(1 for a in v if a) >= 2]
+        full = [v for v in bv if all(v)]
+        if want_full and nd == 3 and not full and rng.random() < 0.9:
+            continue                     # axis-order family: mostly separations that admit a v with three non-zero components
+        r = rng.random()
+        if nd == 3 and full and r < (0.85 if want_full else 0.6):
+            v = rng.choice(full)
+        elif oblique and r < 0.75:
+            v = rng.choice(oblique)
+        else:
+            v = rng.choice(bv)
+        ext = rng.choice([1, 2, 2])
+        # neither blob reaches into the other's mask: the centroids stay the centre pixels
+        if all(abs(a) < r_ + ext + 1 for a, r_ in zip(v, rad)):
+            continue
+        break
+    dtype = rng.choice(['uint8', 'uint8', 'uint16'])
+    top = {'uint8': 255, 'uint16': 4000}[dtype]
+    amp = top * rng.choice([0.95, 0.8, 0.5])
+    amp2 = amp if rng.random() < 0.65 else amp * rng.choice([0.8, 0.6, 1.15 if amp < 0.85 * top else 0.9])
+    sg = rng.choice([0.7, 0.9, 1.2])
+    lo = [ext + max(0, -a) for a in v]
+    cshape = [2 * ext + 1 + abs(a) for a in v]
+    blobs = [(tuple(lo), amp), (tuple(l + a for l, a in zip(lo, v)), amp2)]
+    nex = rng.choice([0, 0, 1, 2]) if nd == 2 else rng.choice([0, 0, 1])
+    if nex:
+        # distractors in a strip appended along one axis, further than separation + both masks from the pair
+        k = rng.randrange(nd)
+        gap = int(max(sep)) + 2 * max(rad) + 2 * ext + 2
+        strip = gap + 2 * ext + 1 + (int(max(sep)) + 2 * max(rad) + 2) * (nex - 1)
+        base = cshape[k]
+        cshape[k] += strip
+        for i in range(nex):
+            c = [rng.randint(ext, s - ext - 1) for s in cshape]
+            c[k] = base + gap + ext + i * (int(max(sep)) + 2 * max(rad) + 2)
+            blobs.append((tuple(c), top * rng.choice([0.9, 0.7, 0.4, 0.3])))
+    content = np.zeros(cshape)
+    for c, a in blobs:
+        sl = tuple(slice(ci - ext, ci + ext + 1) for ci in c)
+        content[sl] = np.maximum(content[sl], sym_blob(nd, a, sg, ext))
+    return dict(content=content.astype(dtype), params=p, v=tuple(v), sep=tuple(sep), ext=ext, equal=amp == amp2)
+
+
+def gen_touching_sweep(rng, K):
+    nd = 3 if rng.random() < 0.2 else 2
+    g = gen_touching(rng, nd)
+    pad = pad_for(g['params'], nd)
+    span = 40 if nd == 2 else 8
+    shape = tuple(c + 2 * q + span for c, q in zip(g['content'].shape, pad))
+    offs = []
+    while len(offs) < K:
+        o = tuple(rng.randint(q, s - c - q) for q, s, c in zip(pad, shape, g['content'].shape))
+        if o not in offs:
+            offs.append(o)
+    return dict(g, kind='touching-sweep', shape=shape, offs=offs)
+
+
+def eval_touching_sweep(chk, c):
+    """every placement against the first; a difference is re-evaluated (and reported) as the ordinary
+    two-placement translation case, which is also the replay"""
+    nd = c['content'].ndim
+    tabs = [run_locate(place(c['content'], c['shape'], o), c['params']) for o in c['offs']]
+    n = 0 if isinstance(tabs[0], str) else len(tabs[0])
+    for k in range(1, len(tabs)):
+        delta = {a: c['offs'][k][i] - c['offs'][0][i] for i, a in enumerate(AX[nd])}
+        if compare_placements(tabs[0], tabs[k], delta, True).get('what'):
+            c2 = dict(kind='translation', content=c['content'], shape1=c['shape'], shape2=c['shape'], off1=c['offs'][0], off2=c['offs'][k],
+                      params=c['params'], post={}, gen='touching v=%s sep=%s' % (list(c['v']), list(c['sep'])))
+            r = eval_translation(chk, c2)
+            if r.get('what'):
+                return n, r, c2
+    return n, {}, None
+
+
+def gen_touching_axes(rng, npl=4):
+    """no blank-border premise here (the whole image is transposed, edges included): the pair sits at small
+    coordinates, just inside the margin, where the rescaled coordinates of the axes have different binades
+    and the order of the sum of squares matters most"""
+    nd = 3 if rng.random() < 0.8 else 2
+    g = gen_touching(rng, nd, integer_raw=True, want_full=True)
+    d, rad, sep, sm, ns, margin = axis_values(g['params'], nd)
+    mg = [int(math.ceil(m)) for m in margin]
+    ext = g['ext']
+    reach = 10 if nd == 3 else 24
+    offs = [tuple(rng.randint(max(0, m - ext), m + reach) for m in mg) for _ in range(npl)]
+    shape = tuple(max(o[k] for o in offs) + g['content'].shape[k] + mg[k] + rng.randint(0, 3) for k in range(nd))
+    return dict(g, kind='touching-axes', shape=shape, offs=offs)
+
+
+def eval_touching_axes(chk, c):
+    """the placed content located in every axis order (preprocess=False, integer image)"""
+    nd = c['content'].ndim
+    n, known = 0, None
+    for o in c['offs']:
+        img = place(c['content'], c['shape'], o)
+        base = run_locate(img, c['params'])
+        n = max(n, 0 if isinstance(base, str) else len(base))
+        for perm in itertools.permutations(range(nd)):
+            if perm == tuple(range(nd)):
+                continue
+            cx = dict(kind='transposition', image=img, perm=perm, copy=bool((sum(o) + perm[0]) % 2), params=c['params'], post={},
+                      gen='touching v=%s sep=%s' % (list(c['v']), list(c['sep'])))
+            r = eval_transposition(chk, cx, base=base)
+            chk.tally('touching pair: axis order evaluated (%d-D)' % nd)
+            if r.get('sig') in (SIG_F13, SIG_F15):       # open findings (ecc; exact tie): noted, the sweep goes on
+                known = known or (r, cx)
+            elif r.get('what'):
+                return n, r, cx
+    return (n,) + (known or ({}, None))
+
+
+def corpus_touching():
+    """fixed members of the family: diameter 9 (separation 10) pair along y swept over 24 offsets along y;
+    separation 10 oblique (6, 8); separation (5, 10) oblique (3, 8); 3-D separation 6 with v = (2, 4, 4)"""
+    out = []
+
+    def pair(v, ext=2, amp=200, sg=0.9, dtype='uint8'):
+        nd = len(v)
+        lo = [ext + max(0, -a) for a in v]
+        content = np.zeros([2 * ext + 1 + abs(a) for a in v])
+        for c in (lo, [l + a for l, a in zip(lo, v)]):
+            sl = tuple(slice(ci - ext, ci + ext + 1) for ci in c)
+            content[sl] = np.maximum(content[sl], sym_blob(nd, amp, sg, ext))
+        return content.astype(dtype)
+
+    for pre in (False, True):
+        p = dict(diameter=9, preprocess=pre)
+        content = pair((10, 0))
+        pad = pad_for(p, 2)
+        shape = tuple(c + 2 * q + 26 for c, q in zip(content.shape, pad))
+        out.append(dict(kind='touching-sweep', content=content, params=p, v=(10, 0), sep=(10, 10), ext=2, equal=True, shape=shape,
+                        offs=[(pad[0] + k, pad[1] + 3) for k in range(25)]))
+    for v, p in (((6, 8), dict(diameter=9, preprocess=False)), ((3, -8), dict(diameter=(5, 9), separation=(5, 10), preprocess=False)),
+                 ((0, 12), dict(diameter=11, preprocess=False)), ((2, 4, 4), dict(diameter=5, preprocess=False))):
+        nd = len(v)
+        content = pair(v, ext=2 if nd == 2 else 1, sg=0.9 if nd == 2 else 0.7, dtype='uint16' if v == (0, 12) else 'uint8')
+        d, rad, sep, sm, ns, margin = axis_values(p, nd)
+        pad = pad_for(p, nd)
+        span = 16 if nd == 2 else 6
+        shape = tuple(c + 2 * q + span for c, q in zip(content.shape, pad))
+        offs = [tuple(q + (k * (i + 1)) % (span + 1) for i, q in enumerate(pad)) for k in range(12 if nd == 2 else 6)]
+        out.append(dict(kind='touching-sweep', content=content, params=p, v=v, sep=tuple(sep), ext=2 if nd == 2 else 1, equal=True, shape=shape, offs=offs))
+    return out
+
+
+def corpus_touching_axes():
+    """3-D, diameter 5 (separation 6), v = (2, 4, 4) (length exactly 6) at three base positions; separation 7, v = (2, 3, 6)"""
+    out = []
+    for v, p, bases in (((2, 4, 4), dict(diameter=5, preprocess=False), [(10, 12, 11), (11, 15, 13), (9, 10, 17)]),
+                        ((2, 3, 6), dict(diameter=5, separation=7, preprocess=False), [(9, 11, 10), (12, 9, 14)])):
+        content = np.zeros([3 + a for a in v])
+        for c in ((1, 1, 1), tuple(1 + a for a in v)):
+            sl = tuple(slice(ci - 1, ci + 2) for ci in c)
+            content[sl] = np.maximum(content[sl], sym_blob(3, 180, 0.7, 1))
+        d, rad, sep, sm, ns, margin = axis_values(p, 3)
+        out.append(dict(kind='touching-axes', content=content.astype('uint8'), params=p, v=v, sep=tuple(sep), ext=1, equal=True,
+                        shape=(26, 30, 34), offs=[tuple(b - 1 for b in base) for base in bases]))
+    return out
+
+
 # ------------------------------------------------------------ transposition
 def gen_transposition(rng, tier, small=False):
     nd = 3 if (rng.random() < 0.2 and not small) else 2
@@ -560,14 +786,15 @@ def explain_tie(c, p, onlyA, onlyB, A_img):
     return True
 
 
-def eval_transposition(chk, c):
+def eval_transposition(chk, c, base=None):
     img = c['image']
     nd = img.ndim
     perm = c['perm']
     imgT = np.transpose(img, perm)
     if c['copy']:
         imgT = np.ascontiguousarray(imgT)
-    base = run_locate(img, c['params'])
+    if base is None:
+        base = run_locate(img, c['params'])
     p = dict(c['params'])
     if not isinstance(base, str) and len(base) and len(set(base['mass'].values)) == len(base):
         p = resolve_post(c, base)          # topn / minmass only when no two masses tie (numpy's argsort is not stable)
@@ -1027,6 +1254,18 @@ def split_cols(df, nd, transposition):
 
 
 # ---------------------------------------------------------------------- run
+def touching_tally(chk, c, n, k, what):
+    nd = c['content'].ndim
+    nz = sum(1 for a in c['v'] if a)
+    chk.tally('touching pair %d-D %s: %s' % (nd, what, 'axis-aligned' if nz == 1 else 'oblique in %d axes' % nz))
+    chk.tally('touching pair: %s' % ('preprocess' if c['params'].get('preprocess') else 'raw'))
+    chk.tally('touching pair: separation %s' % ('default (diameter + 1)' if c['params'].get('separation') is None else
+                                                 'explicit anisotropic' if isinstance(c['params']['separation'], tuple) else 'explicit'))
+    chk.tally('touching pair: %s brightness' % ('equal' if c['equal'] else 'unequal'))
+    chk.tally('touching pair: %s' % ('both members reported' if n >= 2 else 'fewer than two features at the reference placement (trivial)'))
+    chk.tally('touching pair: placements located (%s)' % what, k)
+
+
 def report(chk, res, replay):
     if res.get('what'):
         chk.violation(res['sig'], res['what'], replay)
@@ -1182,9 +1421,39 @@ def run(chk):
         r = eval_batch(chk, sub, [1, 2, 3])
         if r.get('what'):
             chk.violation(r['sig'], r['what'], dict(j_batch(sub), processes=r['procs'], used_order=r['order']))
+    # ---- (TP) touching pairs: where_close on its boundary, swept over placements and axis orders
+    # (drawn last: the random streams of the families above are unchanged)
+    nS, nA, K = (44, 16, 10) if quick else (400, 150, 16)
+    for c in corpus_touching() + [gen_touching_sweep(rng, K) for _ in range(nS)]:
+        n, r, c2 = eval_touching_sweep(chk, c)
+        touching_tally(chk, c, n, len(c['offs']), 'placements')
+        chk.count(('TP', c['content'].tolist(), jparams(c['params']), [list(o) for o in c['offs']]), n >= 2)
+        if r.get('tie'):
+            chk.tally('translation: where_close tie decided by rounding (F16)')
+        if c2 is not None:
+            report(chk, r, j_translation(c2))
+    chk.sample(dict(kind='touching pair swept over placements', params=jparams(c['params']), v=list(c['v']), separation=list(c['sep']),
+                    canvas=list(c['shape']), offsets=[list(o) for o in c['offs']]))
+    for c in corpus_touching_axes() + [gen_touching_axes(rng) for _ in range(nA)]:
+        n, r, cx = eval_touching_axes(chk, c)
+        touching_tally(chk, c, n, len(c['offs']), 'axis orders')
+        chk.count(('TPX', c['content'].tolist(), jparams(c['params']), [list(o) for o in c['offs']]), n >= 2)
+        if r.get('sig') == SIG_F13:
+            chk.tally('transposition: only ecc differs (F13)')
+        if r.get('tie'):
+            chk.tally('transposition: where_close tie (F15)')
+        if cx is not None:
+            report(chk, r, j_transposition(cx))
     chk.coverage['rule'] = ("(T) content images (blobs, plateaus, dim ladders, noise, few grey levels, close pairs; uint8/uint16/float; 2-D/3-D) pasted at two "
                             "integer offsets into blank canvases that keep margin + radius + max_iterations + filter reach from the edge, canvas size equal or "
-                            "different, incl. two 1200x1000 canvases; locate parameters random; (X) integer images, every axis order, preprocess=False; "
+                            "different, incl. two 1200x1000 canvases; locate parameters random; "
+                            "(TP) touching pairs: two symmetric integer blobs (uint8/uint16, equal or unequal brightness, 0-2 distant distractor blobs) on whole-pixel centres whose "
+                            "centre-to-centre vector v satisfies sum((v_k/separation_k)^2) = 1 exactly (enumerated in rational arithmetic: axis-aligned and oblique/Pythagorean vectors; "
+                            "default separation diameter+1 and explicit iso/anisotropic separations 3..15, i.e. mostly not powers of two; 2-D and 3-D; preprocess on/off), so that "
+                            "where_close decides exactly on its boundary: each content is located at 10 (thorough 16) distinct whole-pixel offsets of one canvas and every table compared "
+                            "with the first (a fixed diameter-9 pair is swept over 25 consecutive offsets), and integer preprocess=False placements (two per content) are located in every "
+                            "axis order (3-D: all six, 2-D: both); tallied as 'touching pair ...'; non-trivial = both members of the pair are reported at the reference placement; "
+                            "(X) integer images, every axis order, preprocess=False; "
                             "(B) 3-8 frames incl. blank ones, with/without frame_no, shuffled, processes 1/2/4(/auto); "
                             "(B2) 12-frame movies of ndarray-subclass frames numbered from 14..40 (frame_no kept or lost when pickled): sub-clip [3:9], reversed, strided, "
                             "reversed strided selections with processes 1/2/3 against the full movie's rows of those frames and against locate per frame; "
